@@ -273,7 +273,8 @@ def observe(state):
     T, S, L = state
     L = dict(L)
     pols = sorted([f'{i}<-static' for i in S] + [f'{i}<-{t}' for i, t in L.items()])
-    return {'policies': pols, 'templates': sorted(T), 'links': {t: sorted(i for i, tt in L.items() if tt == t) for t in sorted(T)}, 'reasons': sorted(list(S) + list(L))}
+    by_id = {i: (sorted(j for j, tt in L.items() if tt == i) if i in T else ([i] if i in S else '<error>')) for i in IDS}       # get_linked_policies(id): the links of a template, the policy itself for a static policy, an error otherwise
+    return {'policies': pols, 'templates': sorted(T), 'links': {t: sorted(i for i, tt in L.items() if tt == t) for t in sorted(T)}, 'reasons': sorted(list(S) + list(L)), 'linked_by_id': by_id}
 
 
 def all_ops():
@@ -294,15 +295,15 @@ def native_search(ctx, name, role, why):
     for _ in range(3000):
         seqs.append([ctx.rand.choice(ops) for _ in range(ctx.rand.randint(4, 7))])
     for seq in seqs:
-        got = ctx.native.ask({'op': 'policyset_ops', 'ops': seq})
+        got = ctx.native.ask({'op': 'policyset_ops', 'ops': seq, 'universe': IDS})
         st = (frozenset(), frozenset(), ())
         for j, (op, g) in enumerate(zip(seq, got.get('steps', []))):
             okk, st = ref_step(st, op)
             exp = observe(st)
-            g2 = {k: g[k] for k in ('policies', 'templates', 'links', 'reasons')}
+            g2 = {k: g[k] for k in ('policies', 'templates', 'links', 'reasons', 'linked_by_id')}
             if g['ok'] != okk or g2 != exp:
                 return ctx.violation(name, role, f'{why}; after {seq[:j + 1]} the real PolicySet reports ok={g["ok"]} state={g2}, the operations imply ok={okk} state={exp}',
-                                     {'op': 'policyset_ops', 'ops': seq[:j + 1], 'expected': {'ok': okk, **exp}, 'got': g})
+                                     {'op': 'policyset_ops', 'ops': seq[:j + 1], 'universe': IDS, 'expected': {'ok': okk, **exp}, 'got': g})
     return ctx.mismatch(name, f'{why}; but no operation sequence (exhaustive to length 3 over ids {IDS}, 3000 longer ones) makes the real PolicySet diverge from the reference model')
 
 
